@@ -430,7 +430,7 @@ def _case(fmt, lines, crlf, via="open", flavour=None):
 
 def cases(tier, rng):
     big = tier in ("thorough", "widen")
-    mult = {"quick": 1, "thorough": 12, "widen": 4}[tier]
+    mult = {"quick": 1, "thorough": 60, "widen": 4}[tier]
     # 1. exhaustive width vectors, BED3 (id,int,int) and chrom.sizes (str,int)
     ws = [1, 2, 3, 9]
     R = 2
